@@ -183,7 +183,7 @@ func (env *rEnv) call(n *rNode) Value {
 		return sym(Select(App(SXMap, "xmap", argT(0)), argT(1), SBytes))
 	case "xhas":
 		e.needXattr = true
-		return sym(Not(Eq(Select(App(SXMap, "xmap", argT(0)), argT(1), SBytes), Term{"NOX", SBytes})))
+		return sym(Not(Eq(Select(App(SXMap, "xmap", argT(0)), argT(1), SBytes), mkT("NOX", SBytes))))
 	case "issys":
 		return sym(App(SBool, "s.sys", argT(0)))
 	case "min":
